@@ -163,6 +163,15 @@ UNITS['c01'] = {
         ('push_scope_pushes_nothing', 'self.scopes.push((self.scope_id_seq, scope));', '', ['C08.eval.push_scope']),
         ('callee_frame_pushed_over_an_extra_frame', "ctx.push_scope(scope); // the callee's body is evaluated under exactly one more frame than the caller's",
          "ctx.push_scope(HashMap::new()); ctx.push_scope(scope); // the callee's body is evaluated under exactly one more frame than the caller's", ['C08.eval.application.one_frame_for_the_callee', 'C08.eval.scopes_balanced']),
+        # C09: cycles_check and component naming
+        ('cycles_marks_every_member', 'if tag.is_schema() && !tag.is_uri() { mark_recursive(node, marked);', 'if true { mark_recursive(node, marked);', ['C09.cycles_check']),
+        ('cycles_never_rejects', 'if inbounds.is_empty() { proof {', 'if false { proof {', ['C09.cycles_check']),
+        ('cycles_trivial_ignores_self_loop', 'graph_.find_edge(idx, idx).is_none() };', 'true };', ['C09.cycles_check']),
+        ('cycles_edges_not_removed', 'graph_.remove_edge(e);', '', ['C09.cycles_check']),
+        ('cycles_outgoing_edges_cut', 'graph_.edges_directed(*index, Incoming)', 'graph_.edges_directed(*index, Direction::Outgoing)', ['C09.cycles_check']),
+        ('rec_component_not_registered', 'ctx.refs.insert(ident.clone(), Some(clone_value(&rhs)));', '', ['C09.eval.recursion.is_reference_to_registered_component']),
+        ('rec_name_ignores_scope', 'node_identifier(ctx, rec.node(), true)', 'node_identifier(ctx, rec.node(), false)', ['C09.eval.recursion']),
+        ('scope_id_not_advanced', 'self.scope_id_seq += 1;', '', ['C09.eval.push_scope.fresh_scope_id']),
         ('variable_evaluates_the_use_not_the_binder', 'Definition::External(ext) => eval_any(ctx, ext.node(ctx.mods), ann),', 'Definition::External(ext) => eval_any(ctx, variable.node(), ann),', ['C08.eval.variable']),
     ],
 }
@@ -266,6 +275,34 @@ PROPS = {
         'not_decided': ['that the evaluator\'s dynamic scope stack agrees with the static binding for all call shapes (whole-evaluation invariant; function-level building blocks are proved)',
                         'arity: that every call supplies at least as many arguments as the callee has parameters (inference), so the callee frame holds ALL parameters',
                         'eval_declaration (reference / recursion bookkeeping), eval_any dispatcher', 'which of two same-named declarations from two unqualified imports wins is fixed (the later import) but not demanded by the statement'],
+    },
+    'C09': {
+        'units': ['c01'],
+        'level': 'other',
+        'obligation_prefixes': ['C09.', 'C01.tagpred.is_schema', 'C01.tagpred.is_uri'],
+        'scans': [
+            {'name': 'P9.compile_calls_cycles_check', 'kind': 'pinned_text', 'file': 'oal-compiler/src/compile.rs', 'path': [('fn', 'compile')],
+             'why': 'the glue that runs cycles_check on the graph returned by resolve, after inference and before evaluation, is not under contract'},
+        ],
+        'technique': 'Verus contract on the real typecheck::cycles_check over a petgraph shim (finite edge map, kosaraju_scc as a partition into classes of mutual reachability); graph-theoretic reading lemmas; '
+                     'function contracts on the real eval_recursion / Context::push_scope for the naming of components',
+        'level_text': 'Deductive proof (Verus/Z3), for every definition graph: the real cycles_check (1) terminates — every round that asks for another round has deleted at least one edge (decreases clause on the edge count); '
+                      '(2) marks as recursive only referential definitions (schema and not URI tags); (3) on Ok, the graph obtained by deleting only edges INTO marked definitions has no cycle, hence (lemma) every cycle of the original definition graph '
+                      'enters a marked referential definition: every recursion can be cut at a schema; (4) on Err, some such subgraph has a class of mutually recursive definitions (or a self loop) none of whose members is referential: a cycle with no schema to cut at — '
+                      'so a program whose definition graph has an uncuttable cycle cannot be accepted (contrapositive of (3) plus termination). '
+                      'Naming of components, function level: eval_recursion returns a reference to a component named by a hash of (the rec node, the identifier of the scope it is instantiated in), binds the rec variable to exactly that name inside the body and registers the evaluated body under it; '
+                      'push_scope gives every scope a fresh identifier (strictly increasing counter). '
+                      'Not decided: eval_declaration (references / recursive declarations evaluated once), that the emitter turns references into $ref + components (see C03 for the closed-components clause), termination of evaluation, and collision-freeness of the hash: level other.',
+        'level_note': 'ASSUMED: petgraph StableDiGraph operations as a finite map edge-id -> (source, target) with stable ids (find_edge, node_weight, edges_directed(Incoming) = all edges into the node, remove_edge); '
+                      'kosaraju_scc returns a partition of the nodes into classes of mutual reachability (scc_spec, opaque, used through four accessor lemmas); rule R-ghost for the RefCell write `core_mut().is_recursive = true`; '
+                      'rules R6 (mut parameter), R13 (`continue` elimination), subst-re rewrites of `first()`, `drain(..)`; SHA-256 is treated as an uninterpreted injective-looking function only in the sense that equal inputs give equal names (distinctness of names for distinct inputs is NOT claimed). '
+                      'The tags read by cycles_check are the final tags (inference ran before): glue pinned, not verified.',
+        'design_ref': 'DESIGN.md section 12.9',
+        'explanation': 'Listed not applicable in the plan; rules R13/R6/R-ghost and a graph shim brought cycles_check within reach. The accumulation of `inbounds` across components makes the rejection argument subtle '
+                       '(an uncuttable class may survive a round in which another class was cut); the loop invariant "inbounds empty ==> every class seen so far is trivial" carries it.',
+        'assumptions': ['petgraph operations and kosaraju_scc contracts (trusted dependency)', 'tags are final when cycles_check runs (glue pinned)', 'hash naming: equal (node, scope id) give equal names; distinct ones are assumed, not proved, to give distinct names'],
+        'not_decided': ['eval_declaration: a reference / recursive declaration is evaluated once and its recursion point becomes Expr::Recursion', 'emitter: Reference -> $ref + component (closedness is C03)', 'termination and finiteness of evaluation',
+                        'two instantiations get different component names (needs collision-freeness of SHA-256 over (scope id, node))', 'recursion through imported modules (graph construction in resolve::Builder is opaque)'],
     },
     'C10': {
         'units': ['c10'],
@@ -439,7 +476,6 @@ NOT_APPLICABLE = {
     'C02': 'needs an independent reference semantics of the whole language and a relational proof over evaluator + emitter (25 mutually recursive eval_* over an external arena, Rc, serde_yaml); no function contract within reach decides "nothing dropped or re-attached" for programs',
     'C05': 'hyperproperty relating the outputs of two programs (before/after a rewrite); a contract speaks about one call, and a product encoding would need the whole pipeline inside the verifier',
     'C06': 'byte-identical output is functional determinism of the whole path source -> YAML including serde_yaml and HashMap iteration order; a data-flow discipline, not a contract on a function',
-    'C09': 'invariant of the evaluator\'s refs table across eval_declaration/eval_recursion/eval_application (the latter uses closures capturing &mut, rejected by Verus); cycles_check alone would give termination of the check, not the property',
     'C12': 'every parser production is a closure combinator over &mut Context (rejected by Verus: closures capturing a mutable reference); Kani on parse_program with three symbolic tokens did not finish in 30 min; the linear bound needs ghost accounting through that same code',
     'C13': 'exit status, stderr and "target file untouched" are effects of a process over the file system reached through &self unit structs; agreement of three front ends is relational',
     'C17': 'defined against the binding relation (C08, not available) for every cursor position, answered by the running server',
